@@ -100,7 +100,7 @@ func (c *Collection) DeleteWithMeta(_ context.Context, key string, oldCas CAS, n
 // storeDocument performs a write to the underlying sqlite database of a document from a given event.
 func (c *Collection) storeDocument(txn *sql.Tx, e *event) error {
 	tombstone := 0
-	if e.isDeletion {
+	if e.isDeletion || e.value == nil {
 		tombstone = 1
 	}
 	_, err := txn.Exec(`INSERT INTO documents(collection,key,value,isJSON,cas,exp,xattrs,tombstone,revSeqNo)
@@ -460,7 +460,7 @@ func (c *Collection) DeleteWithXattrs(ctx context.Context, key string, xattrKeys
 			return nil, err
 		}
 		e.revSeqNo++
-		_, err = txn.Exec(`UPDATE documents SET value=null, xattrs=?1, cas=?2, revSeqNo=?3 WHERE collection=?4 AND key=?5`, e.xattrs, newCas, e.revSeqNo, c.id, key)
+		_, err = txn.Exec(`UPDATE documents SET value=null, xattrs=?1, cas=?2, revSeqNo=?3, tombstone=1 WHERE collection=?4 AND key=?5`, e.xattrs, newCas, e.revSeqNo, c.id, key)
 		return e, err
 	})
 	return err
@@ -629,6 +629,8 @@ func (c *Collection) writeWithXattrs(
 			}
 		}
 		e.xattrs, _ = json.Marshal(xattrs)
+		// A document without a body is a tombstone, whichever path left it that way:
+		e.isDeletion = (e.value == nil)
 
 		if err = checkDocSize(len(e.value) + len(e.xattrs)); err != nil {
 			return nil, err
